@@ -20,12 +20,14 @@ CONFIGS = [
     ("cov_c", "P_cov_c", "{1, 2, 3}", 8, {"MaxObj": 6, "NAddr": 5, "MaxSpur": 0}, "default"),
     ("cov_d_nf0", "P_cov_d", "{1, 2}", 0, {"MaxObj": 5, "UseFast": "FALSE"}, "nofast"),
     ("cov_a", "P_cov_a", "{1, 2, 3}", 8, {}, "default"),
+    ("cov_e", "P_cov_e", "{1, 2}", 8, {"MaxObj": 4}, "default"),
 ]
 
 PROGS = {
     "P_cov_a": {1: ["ld", "dg", "ld", "dg"], 2: ["st"], 3: ["st"]},
     "P_cov_c": {1: ["rcu", "dh"], 2: ["st"], 3: ["ld", "dg"]},
     "P_cov_d": {1: ["lf", "dh", "lf", "dh"], 2: ["sw", "dh", "st"]},
+    "P_cov_e": {1: ["cn", "cl", "cl", "cd"], 2: ["st", "st"]},
 }
 
 SILENT = None
@@ -62,7 +64,7 @@ def sig(e):
         "N_cool": "inuse.%d.0.load" % (scan - 1), "N_wr": "wr.%d.0.load" % (scan - 1),
         "N_uncool": "inuse.%d.0.cas" % (scan - 1), "N_claim": "inuse.%d.0.cas" % (scan - 1),
         "X_res": "wr.%d.0.add" % n, "X_cool": "inuse.%d.0.swap" % n, "X_rel": "wr.%d.0.sub" % n,
-        "R_cx": "st.%d.0.casw" % cc, "R_dec": "dec", "R_dropnew": "dec",
+        "R_cx": "st.%d.0.casw" % cc, "R_dec": "dec", "R_dropnew": "dec", "X_check": "st.%d.0.load" % cc,
     }
     return T.get(pc, SILENT)
 
@@ -96,6 +98,12 @@ def real_program(pname, strategy):
                 ops.append({"op": "drop_h", "h": handles.pop(0)})
             elif k == "st":
                 ops.append({"op": "store", "c": 0, "v": {"new": {"pd": False}}})
+            elif k == "cn":
+                ops.append({"op": "cache_new", "x": t, "c": 0})
+            elif k == "cl":
+                ops.append({"op": "cache_load", "x": t})
+            elif k == "cd":
+                ops.append({"op": "cache_drop", "x": t})
         threads.append(ops)
     return {"threads": threads, "strategy": strategy, "reuse": "lifo"}
 
@@ -182,7 +190,7 @@ def jobs(tier, seed, workdir, start_id=0):
     keep = 700 if tier == "quick" else 6000
     out = []
     stats = {"behaviours": 0, "selected": 0, "features": 0}
-    for (name, prog, threads, nf, extra, strat) in (CONFIGS[:3] if tier == "quick" else CONFIGS):
+    for (name, prog, threads, nf, extra, strat) in ([CONFIGS[0], CONFIGS[1], CONFIGS[2], CONFIGS[4]] if tier == "quick" else CONFIGS):
         hists = simulate(name, prog, threads, nf, extra, per, seed, workdir)
         stats["behaviours"] += len(hists)
         # greedy cover
